@@ -474,6 +474,23 @@ def shard(ctx):
             ctx.violation("json_parse:roundtrip", "json_parse(JSON text of D) != D or not usable as a value: %s for D=%s" % (st, json.dumps(d)[:300]), {"rules": rules, "data": doc2, "fname": "json_parse", "roundtrip": True})
         else:
             ctx.res.distinct.add(("json-roundtrip", len(json.dumps(d)) // 50))
+    # ---- json_parse of documents that are not maps (a scalar, null, a list): one value per text, equal to the document
+    if ctx.mine(6):
+        srules = ("rule r {\n    let p = json_parse(text)\n    %p == orig\n}\nrule c {\n    let p = json_parse(text)\n    let n = count(%p)\n    %n == 1\n}\n"
+                  "rule e {\n    let p = json_parse(text)\n    %p exists\n}\nrule m {\n    let p = json_parse(texts[*])\n    let n = count(%p)\n    %n == 3\n}\n")
+        for d in [None, 5, -1.5, True, False, 0, "s", "", [], [None], [1, "a"], {"a": None}, {}]:
+            doc2 = json.dumps({"text": json.dumps(d), "orig": d, "texts": ["1", json.dumps(d), '{"k": 2}']})
+            res = ctx.w.run({"k": "rc", "data": doc2, "rules": srules, "verbose": False})
+            kind, st, fs = obs.rc_statuses(res)
+            ctx.res.cases += 1
+            ctx.res.counts["json_roundtrip_non_map"] += 1
+            if kind != "ok":
+                ctx.inconclusive("crash" if core.crash_signature(res) else "json-roundtrip-error")
+            elif any(st.get(k_) != "PASS" for k_ in "rcem"):
+                ctx.violation("json_parse:roundtrip:non-map-document", "json_parse(JSON text of D) for D=%s: equal to D / one value / exists / three values from three texts -> %s" % (
+                    json.dumps(d), {k_: st.get(k_) for k_ in "rcem"}), {"rules": srules, "data": doc2, "fname": "json_parse", "roundtrip": True})
+            else:
+                ctx.res.distinct.add(("json-roundtrip-non-map", type(d).__name__))
     # ---- boolean / numeric spellings one by one (a list argument stops at its first unparsable member, so each spelling is its own call)
     if ctx.mine(5):
         for sp in ["true", "True", "TRUE", "tRuE", "fAlSe", "FALSE", "false", "False", "TrUe", "yes", "no", "1", "0", "t", "", " true", "true "]:
@@ -519,7 +536,7 @@ def replay(case, w):
     if case.get("roundtrip"):
         res = w.run({"k": "rc", "data": case["data"], "rules": case["rules"], "verbose": False})
         kind, st, fs = obs.rc_statuses(res)
-        return kind == "ok" and st.get("r") == "PASS" and st.get("s") == "PASS", str(st)
+        return kind == "ok" and bool(st) and all(v == "PASS" for v in st.values()), str(st)
     if "expect" in case:
         res = w.run({"k": "rc", "data": case["data"], "rules": case["rules"], "verbose": False})
         try:
